@@ -418,6 +418,41 @@ fn cells_total(max_n: usize) -> u64 {
     dist_cells(max_n).iter().map(|(n, _)| if *n <= SUBSET_TRACKING_MAX_N { (1u64 << n) + *n as u64 } else { 2 * *n as u64 }).sum()
 }
 
+/// ENUMERATED single selections: every population of 1..=5 individuals with values in {0, 1, 2} (every tie
+/// pattern) x {best, worst, tournament of every size 1..=n} x 4 streams.
+fn enum_cells() -> u64 {
+    (1..=5u64).map(|n| 3u64.pow(n as u32) * (n + 2) * 4).sum()
+}
+
+fn enum_cell(mut idx: u64) -> Sc {
+    let mut n = 1u64;
+    loop {
+        let block = 3u64.pow(n as u32) * (n + 2) * 4;
+        if idx < block || n == 5 {
+            break;
+        }
+        idx -= block;
+        n += 1;
+    }
+    let stream = idx % 4;
+    idx /= 4;
+    let w = idx % (n + 2);
+    idx /= n + 2;
+    let vals: Vec<i32> = (0..n).map(|i| ((idx / 3u64.pow(i as u32)) % 3) as i32).collect();
+    let which = match w {
+        0 => Which::Best,
+        1 => Which::Worst,
+        k => Which::Tournament((k - 1) as usize),
+    };
+    let rng = match stream {
+        0 => RngSpec::seeded(1 + idx),
+        1 => RngSpec::seeded(0x5bd1_e995 ^ idx),
+        2 => RngSpec { q16: 16, ..RngSpec::seeded(3) },
+        _ => RngSpec { q16: 5, ..RngSpec::seeded(4 ^ idx) },
+    };
+    Sc::One { vals, which, rng }
+}
+
 impl Check for C07 {
     type Scenario = Sc;
 
@@ -468,6 +503,10 @@ impl Check for C07 {
                 seed: g.next_u64(),
                 cells_total: cells_total(max_n),
             };
+        }
+        let e = run.wrapping_sub(cells.len() as u64);
+        if e < enum_cells() {
+            return enum_cell(e);
         }
         if g.chance(1, 6) {
             // scored individuals with shared genomes: the selection pressure is
